@@ -106,6 +106,9 @@ pub enum Op {
     Remove(usize),
     Mine,
     Expire,
+    /// a foreign block without transactions and proposals arrives on the tip (time passes for the
+    /// proposal window: a proposed transaction that is not committed in time drops out of it)
+    Idle,
 }
 
 pub fn pool_config(rbf: bool, variant: u8) -> TxPoolConfig {
@@ -336,6 +339,16 @@ impl Driver {
                 self.mined += 1;
                 Ok(format!("mined #{} txs={} proposals={}", block.number(), block.transactions().len() - 1, block.data().proposals().len()))
             }
+            Op::Idle => {
+                self.clock += BLOCK_INTERVAL_MS;
+                set_time(self.clock);
+                let snap = std::sync::Arc::clone(&self.node.shared.snapshot());
+                let block = crate::forge::assemble(&snap, &crate::forge::BlockSpec { miner: 8, timestamp: Some(self.clock), ..Default::default() })?;
+                self.node.process(&block).map_err(|e| format!("forged empty block refused: {e}"))?;
+                self.node.wait_pool_synced()?;
+                self.mined += 1;
+                Ok(format!("foreign empty block #{}", block.number()))
+            }
             Op::Expire => {
                 // expiry is evaluated by the pool when it processes a tip change
                 self.clock += 2 * 3600 * 1000;
@@ -405,7 +418,7 @@ fn replay_history(ctx: &Ctx, cons: &Consensus, rbf: bool, variant: u8, hist: &[O
                 }
             }
         }
-        if matches!(op, Op::Mine | Op::Expire) {
+        if matches!(op, Op::Mine | Op::Expire | Op::Idle) {
             special = true;
         }
         // RBF rule
@@ -484,10 +497,16 @@ pub fn run(ctx: &Ctx) -> Report {
     // (universe, rbf, depth, prefix): the search starts after `prefix` (empty = from the empty pool)
     let sub = |names: &[&str], all: &[&str]| -> Vec<Op> { names.iter().map(|n| Op::Submit(all.iter().position(|x| x == n).unwrap())).collect() };
     let dep_prefix = sub(&["P1", "P2", "Dd", "Q"], &DEPEVICT);
+    // a proposed family one empty block away from dropping out of the proposal window (proposed in
+    // block 1, window 2..4): the diamond with its tail, and the chain of three with the join
+    let mut window_prefix_1 = sub(&["A1", "B", "C", "D", "F"], &DIAMOND);
+    window_prefix_1.extend([Op::Mine, Op::Idle, Op::Idle, Op::Idle]);
+    let mut window_prefix_0 = sub(&["A1", "A2", "A3", "J"], &NAMES);
+    window_prefix_0.extend([Op::Mine, Op::Idle, Op::Idle, Op::Idle]);
     let configs: Vec<(u8, bool, usize, Vec<Op>)> = if ctx.tier.is_thorough() {
-        vec![(0, true, 6, vec![]), (1, true, 6, vec![]), (0, false, 6, vec![]), (1, false, 5, vec![]), (2, true, 4, dep_prefix.clone()), (2, false, 3, dep_prefix.clone()), (2, true, 5, vec![])]
+        vec![(0, true, 6, vec![]), (1, true, 6, vec![]), (0, false, 6, vec![]), (1, false, 5, vec![]), (2, true, 4, dep_prefix.clone()), (2, false, 3, dep_prefix.clone()), (2, true, 5, vec![]), (1, true, 3, window_prefix_1.clone()), (0, true, 3, window_prefix_0.clone()), (1, false, 3, window_prefix_1.clone())]
     } else {
-        vec![(0, true, 5, vec![]), (1, true, 4, vec![]), (0, false, 4, vec![]), (2, true, 2, dep_prefix.clone())]
+        vec![(0, true, 5, vec![]), (1, true, 4, vec![]), (0, false, 4, vec![]), (2, true, 2, dep_prefix.clone()), (1, true, 2, window_prefix_1.clone()), (0, true, 2, window_prefix_0.clone())]
     };
     // the search is split by (config, first op, second op) over the worker processes; each worker
     // runs one level-synchronous BFS over all its roots per config, with a shared seen-set (so a
@@ -499,7 +518,8 @@ pub fn run(ctx: &Ctx) -> Report {
         ops.extend((0..n_txs).map(Op::Remove));
         ops.push(Op::Mine);
         ops.push(Op::Expire);
-        let firsts: Vec<Op> = ops.iter().cloned().filter(|op| matches!(op, Op::Submit(_) | Op::Mine) || prefix.contains(&match op { Op::Remove(i) => Op::Submit(*i), o => *o })).collect();
+        ops.push(Op::Idle);
+        let firsts: Vec<Op> = ops.iter().cloned().filter(|op| matches!(op, Op::Submit(_) | Op::Mine | Op::Idle) || prefix.contains(&match op { Op::Remove(i) => Op::Submit(*i), o => *o })).collect();
         let mut seen: HashSet<u64> = HashSet::new();
         let mut frontier: Vec<Vec<Op>> = vec![];
         let mut slot: Option<Driver> = None;
